@@ -164,6 +164,9 @@ def parse_template(lines, flavour):
                 raise ExtractError("bad splice at %s" % origin)
             sink = []
             cur.splices.append((m.group(1), m.group(2), sink))
+        elif s.startswith("//@loop-end "):
+            sink = []
+            cur.splices.append(("loop-end", int(s.split()[1]), sink))
         elif s == "//@body-start":
             sink = []
             cur.splices.append(("body-start", None, sink))
@@ -189,7 +192,7 @@ def parse_template(lines, flavour):
 # rewrite rules
 
 CHAIN_RE = re.compile(
-    r"(?P<recv>(?:&\s*)?[A-Za-z_][A-Za-z_0-9]*(?:\s*\.\s*node)?)\s*\.\s*inner\s*\.\s*2\s*\.\s*"
+    r"(?P<recv>(?<![\w.])[A-Za-z_][A-Za-z_0-9]*(?:\s*\.\s*node)?)\s*\.\s*inner\s*\.\s*2\s*\.\s*"
     r"(?P<acc>borrow_mut\s*\(\s*\)|borrow\s*\(\s*\)|write\s*\(\s*\)\s*\.\s*unwrap\s*\(\s*\)|read\s*\(\s*\)\s*\.\s*unwrap\s*\(\s*\))")
 
 
@@ -436,8 +439,8 @@ def apply_R9(body, stats):
         ordinal = len(re.findall(r"(?<![\w'])(?:for|while|loop)\b", m[:mm.start()])) + 1
         it = "it%d" % ordinal
         inner = body[bo + 1:bc]
-        rep = ("let mut %s = %s.%s(); loop { match %s.next() { Some(%s) => {%s} None => break, } }"
-               % (it, body[mm.start("recv"):mm.end("recv")], mm.group("meth"), it, body[mm.start("pat"):mm.end("pat")], inner))
+        rep = ("let mut %s = %s.%s(); loop { match %s.next() { Some(%s) => {%s /*@LBE%d*/ } None => break, } }"
+               % (it, body[mm.start("recv"):mm.end("recv")], mm.group("meth"), it, body[mm.start("pat"):mm.end("pat")], inner, ordinal))
         body = body[:mm.start()] + rep + body[bc + 1:]
 
 
@@ -629,6 +632,15 @@ def generate(template_path, flavour, repo="/repo", vacuity=False, rules=None):
                 edits.append((0, 0, txt, 0))
             elif where == "before-tail":
                 t = tail_start(m)
+                edits.append((t, t, txt, 0))
+            elif where == "loop-end":
+                marker = "/*@LBE%d*/" % pat
+                if body.count(marker) == 1:
+                    t = body.index(marker)
+                elif 1 <= pat <= len(loops):
+                    t = loops[pat - 1]["body_close"]
+                else:
+                    raise ExtractError("%s: loop-end %d: no such loop" % (b.id, pat))
                 edits.append((t, t, txt, 0))
             else:
                 rx = re.compile(pat_to_regex(pat))
